@@ -58,6 +58,13 @@ def run(tier, seed, prop='C04', p_set=0.45, nops=(1, 30)):
                 try:
                     cls2 = realcode.load_class(realcode.translate(book.sheets(lw)))
                     ex2 = realcode.executor_for(cls2)
+                    if hno % 4 == 2:
+                        # the executor is given its class again (a reload), then one more set-cells call that repeats the most recent write: every override
+                        # supplied before the reload still counts
+                        (t0, v0) = list(lw.items())[-1]
+                        ex.set_executed_class(class_object=cls)
+                        ex.set_cells([m['Cell'](t0[0], t0[1], t0[2], v0)])
+                        chk.count('law:reload-keeps-overrides')
                     for s in range(book.ns):
                         W = max([book.w[s]] + [c + 1 for (ss, c, r) in lw if ss == s])
                         H = max([book.h[s]] + [r + 1 for (ss, c, r) in lw if ss == s])
